@@ -326,6 +326,8 @@ class amg {
                     const backend_params &bprm
                     )
             {
+                sort_rows(*A);
+
                 if (relax) {
                     relax = std::make_shared<Relaxation>(*A, prm.relax, bprm);
                 }
